@@ -2431,6 +2431,17 @@ def _whole_variant_list(nn, q, v):
         return nn.map_info(q, v[1]) is not None
     if head(v) in ("iter", "citer") and is_mcall(strip(v[-1]), "values"):
         return nn.map_info(q, strip(strip(v[-1])[1])[1]) is not None
+    if head(v) in ("iter", "citer") and head(strip(v[-1])) == "comp" and strip(v[-1])[1] in ("gen", "list") and len(strip(v[-1])[3]) == 1 and strip(strip(v[-1])[2]) == strip(v[-1])[3][0][0]:
+        # (idx for idx in D.values() if len(idx) > 1): the whole lists again, the ones without a pair left out
+        cp = strip(v[-1])
+        ce, conds = cp[3][0]
+        for c in conds:
+            c = strip(c)
+            single = head(c) == "cmp" and is_call(strip(c[2]), "builtins.len") and strip(strip(c[2])[2][0]) == ce and is_const(strip(c[3])) and \
+                ((c[1] == ">" and strip(c[3])[2] <= 1) or (c[1] == ">=" and strip(c[3])[2] <= 2) or (c[1] == "!=" and strip(c[3])[2] in (0, 1)))
+            if not single:
+                return False
+        return _whole_variant_list(nn, q, ce)
     return False
 
 
